@@ -215,8 +215,8 @@ def layout_agreement(ck, fn, report, min_cells=1):
             if "id" not in i or i["id"] in der or not i.get("ty", "").endswith("*"):
                 continue
             src = []
-            if i["op"] == "getelementptr" and not i.get("terms"):
-                src = [i["base"]]
+            if i["op"] == "getelementptr":
+                src = [i["base"]]          # a moving pointer (constant step) or a fixed base with an index
             elif i["op"] == "bitcast":
                 src = [i["ops"][0]]
             elif i["op"] == "phi":
